@@ -30,6 +30,22 @@ Lemma frames_prefix' sh ops fs rest :
   delivered sh ops ++ drained_frames (final sh ops) = fs /\ leftover (final sh ops) = rest.
 Proof. apply frames_prefix. Qed.
 
+(* two arbitrary runs (chunkings, interfaces, interleavings of next_message, capacities, even
+   different control-flow shapes of spare_capacity_mut) over the same byte stream *)
+Lemma frag_independent sh1 sh2 ops1 ops2 fs rest :
+  Forall frame_ok fs -> incomplete rest ->
+  fed sh1 ops1 = concat fs ++ rest -> fed sh2 ops2 = fed sh1 ops1 ->
+  delivered sh1 ops1 ++ drained_frames (final sh1 ops1) =
+    delivered sh2 ops2 ++ drained_frames (final sh2 ops2) /\
+  leftover (final sh1 ops1) = leftover (final sh2 ops2).
+Proof.
+  intros Hfs Hinc H1 H2.
+  destruct (frames_prefix' sh1 ops1 fs rest Hfs Hinc H1) as [A1 B1].
+  rewrite H1 in H2.
+  destruct (frames_prefix' sh2 ops2 fs rest Hfs Hinc H2) as [A2 B2].
+  split; congruence.
+Qed.
+
 Lemma only_complete' sh ops1 ops2 fs rest :
   Forall frame_ok fs -> incomplete rest -> fed sh (ops1 ++ ops2) = concat fs ++ rest ->
   (exists k, delivered sh ops1 = firstn k fs) /\
